@@ -39,15 +39,28 @@ structure Dev where
   neqFlt : Bool
   /-- int/float comparisons convert the int64 to float64 first -/
   viaF64 : Bool
+  /-- `sameValue` trusts the comparability of the TYPE: two struct/array values that hold a slice or map in an
+  interface-typed field reach Go `==` and panic (finding C12-iface-field-panic, round 3; present in every
+  version so far, repaired by the proposed fix notes/proposed_fixes/C12_iface_field_panic.md) -/
+  ifaceTrap : Bool
   deriving DecidableEq, Inhabited
 
 /-- the tree as first pinned (before the `fix:` commits 0a3fd2c and 21415f8) -/
-def Dev.pinned : Dev := ⟨true, true, true⟩
+def Dev.pinned : Dev := ⟨true, true, true, true⟩
 /-- the code between 21415f8 and 24fcf54: only the int-via-float64 deviation left -/
-def Dev.before24fcf54 : Dev := ⟨false, false, true⟩
-/-- the code as it is now (after 24fcf54, `cmpIntFloat`): no deviation left; the same as `Dev.fixed` -/
-def Dev.current : Dev := ⟨false, false, false⟩
-def Dev.fixed : Dev := ⟨false, false, false⟩
+def Dev.before24fcf54 : Dev := ⟨false, false, true, true⟩
+/-- the code as it is now (after 24fcf54, `cmpIntFloat`): one deviation left, found in round 3 (`ifaceTrap`) -/
+def Dev.current : Dev := ⟨false, false, false, true⟩
+/-- every known deviation repaired (the current code with the proposed fix C12_iface_field_panic) -/
+def Dev.fixed : Dev := ⟨false, false, false, false⟩
+
+/-- Go `==` can be reached by a left operand `l` of an uncomparable dynamic type: always before 0a3fd2c; since
+then only by a value whose TYPE reflection calls comparable (`tcmp`) -/
+def passesGuard : Val → Bool
+  | .ext e => e.tcmp
+  | _ => false
+
+def Dev.faultFlag (d : Dev) (l : Val) : Bool := d.uncmp || (d.ifaceTrap && passesGuard l)
 
 /-- the float an int64 is compared as: `float64(tl)` before 24fcf54, its exact value since
 (`cmpIntFloat` at all twelve comparison sites: `Gen.Script.cmpSites`, theorem `C12.int_float_exact_ok`) -/
@@ -67,7 +80,7 @@ def ifaceEq (d : Dev) (l r : Val) : Except Fault Bool :=
   | .ext a, .ext b =>      -- two typed values: Go compares only values of the same dynamic type
     if a.ty = b.ty then
       if a.cmp then .ok (a.id == b.id)
-      else if d.uncmp then .error .uncomparable else .ok false
+      else if d.uncmp || (d.ifaceTrap && a.tcmp) then .error .uncomparable else .ok false
     else .ok false
   | _, _ => .ok false      -- different dynamic types; two *regexp.Regexp are distinct pointers
 
@@ -83,13 +96,14 @@ func sameValue(left, right any) bool {
 type), `comparable` the reflect test on the LEFT operand, `sameValue` the guarded comparison. The shape of
 the guard (a reflect `Comparable()` test on the left operand's type, no list of types) is the regenerated
 fact `Gen.Script.sameValueShape` (theorem `C12.same_value_shape_ok`). `ifaceEq d` is `goEq` when
-`d.uncmp` (before 0a3fd2c) and `sameValue` otherwise (`ifaceEq_eq_sameValue`). -/
+`d.uncmp` (before 0a3fd2c), `sameValue` for the current code, and `sameValueFix` (the guard also catches the
+values whose `==` is unsafe although their type is comparable) with the proposed fix (`ifaceEq_eq_sameValue`). -/
 
 /-- `reflect.TypeOf(v).Comparable()`; the nil interface has no type (`lt == nil`: the guard is skipped) -/
 def comparable : Val → Bool
   | .arr _ => false
   | .obj _ => false
-  | .ext e => e.cmp
+  | .ext e => e.tcmp
   | _ => true
 
 /-- raw Go `left == right` -/
@@ -108,6 +122,17 @@ def goEq (l r : Val) : Except Fault Bool :=
 
 def sameValue (l r : Val) : Except Fault Bool :=
   if !comparable l then .ok false else goEq l r
+
+/-- `==` on values of `l`'s dynamic type is safe -/
+def eqSafe : Val → Bool
+  | .arr _ => false
+  | .obj _ => false
+  | .ext e => e.cmp
+  | _ => true
+
+/-- with the proposed fix (struct/array kinds compared under recover): unsafe values are simply unequal -/
+def sameValueFix (l r : Val) : Except Fault Bool :=
+  if !comparable l || !eqSafe l then .ok false else goEq l r
 
 def asBool : Val → Bool
   | .bool b => b
